@@ -148,7 +148,7 @@ func reproDeferredCrossing(c *check.Ctx, a *acc) {
 func init() {
 	registry["C03"] = func(c *check.Ctx) int {
 		a := &acc{}
-		partE1(c, a, e1Batch{Profiles: []string{"isolation", "mixed"}, Histories: c.Pick(160, 1600), Steps: c.Pick(100, 160), MaxConns: 6, MaxSess: 3},
+		partE1(c, a, e1Batch{Profiles: []string{"isolation", "mixed", "dagaz"}, Histories: c.Pick(180, 1800), Steps: c.Pick(100, 160), MaxConns: 6, MaxSess: 3},
 			"at least 2 sessions holding a coinciding entity id were live at once",
 			func(s *e1.Stats) bool { return marks(s, "sessions:coinciding-entity-ids") })
 		partNoninterference(c, a, c.Pick(64, 640))
